@@ -652,6 +652,7 @@ func TestVerif_C24(t *testing.T) {
 			}
 		}
 	}
+	c24Histories(r)
 	if err := r.Finish(); err != nil {
 		t.Fatal(err)
 	}
